@@ -399,7 +399,11 @@ impl Chitchat {
         for key in previous_keys {
             node_state.remove_key_value_internal(&key);
         }
-        node_state.set_last_gc_version(last_gc_version);
+        // The copy now reflects the fetched state: its max version is at least the fetched one,
+        // even if no fetched key-value carries it (they may have been deleted and collected).
+        node_state.set_max_version(node_state.max_version().max(max_version));
+        // The GC watermark must never go backward.
+        node_state.set_last_gc_version(last_gc_version.max(node_state.last_gc_version()));
 
         let monotonic_property_after = node_state.monotonic_property();
 
